@@ -244,6 +244,11 @@ class Interp:
             return self.read_place(st, v[1], {"l": v[2], "p": [_thaw(x) for x in v[3]]})
         if k == "ptr":
             return st.heap.get(v[1], U("heap%d" % v[1]))
+        if k == "href":
+            cur = st.heap.get(v[1], U("heap%d" % v[1]))
+            for e in v[2]:
+                cur = self.project(st, cur, _thaw(e))
+            return cur
         if k == "u":
             return U(v[1], v[2].lstrip("&").replace("mut ", "", 1).strip() if v[2] else "")
         if k == "adt":
@@ -409,7 +414,7 @@ class Interp:
                 # a field of something reached through an opaque pointer: conflate the reference with the value
                 return self.read_place(st, fid, p)
             if ap[0] == "heap":
-                return ("ptr", ap[1]) if not ap[2] else U("ref-heap-proj")
+                return ("ptr", ap[1]) if not ap[2] else ("href", ap[1], tuple(_freeze(x) for x in ap[2]))
             return ("lref", ap[0], ap[1], tuple(_freeze(x) for x in ap[2]))
         if k == "cast":
             v = self.operand(st, fid, rv["op"])
@@ -813,6 +818,8 @@ def _render(v, depth=0):
         return "%s(%s)" % (v[1], _render(v[2], depth + 1))
     if k == "pj":
         return "%s.%s" % (_render(v[1], depth + 1), v[2])
+    if k == "href":
+        return "&heap%d%s" % (v[1], "".join("." + str(_thaw(x).get("f", "?")) if isinstance(_thaw(x), dict) else "*" for x in v[2]))
     if k == "lref":
         return "&_%d%s" % (v[2], "".join("." + str(_thaw(x).get("f", "?")) if isinstance(_thaw(x), dict) else "*" for x in v[3]))
     if k == "splice":
@@ -863,7 +870,7 @@ def deep(st, v, depth=0):
 def _target(interp, st, v):
     """follow references to the value they denote"""
     n = 0
-    while v[0] in ("lref", "ptr") and n < 8:
+    while v[0] in ("lref", "ptr", "href") and n < 8:
         v = interp.deref(st, v)
         n += 1
     return v
@@ -875,6 +882,9 @@ def _store(interp, st, ref, val):
         return True
     if ref[0] == "ptr":
         st.heap[ref[1]] = val
+        return True
+    if ref[0] == "href":
+        st.heap[ref[1]] = interp.write_into(st, st.heap.get(ref[1], U("heap%d" % ref[1])), [_thaw(x) for x in ref[2]], val, None)
         return True
     return False
 
@@ -1343,6 +1353,9 @@ def _truth_fork(st, r):
     """(state in which r is true, state in which r is false); None for an impossible side"""
     if r[0] == "i":
         return (st, None) if r[1] != 0 else (None, st)
+    if r[0] == "un" and r[1] == "Not":
+        s_t, s_f = _truth_fork(st, r[2])
+        return s_f, s_t
     key = _render(r)
     for c in st.cond:
         if c[0] in ("eq", "ne") and c[1] == key:
